@@ -73,6 +73,13 @@ Section C09.
   Theorem C09_roundtrip_str : forall i : winst W, wf_wmd W i ->
     wmd_parse W read_w false false (meta0 (lit "wmd")) (splitlines (wmd_write W show_w i)) = Ok (reparsed W i).
   Proof. exact (roundtrip_splitlines W show_w read_w H_read_show H_show_nonempty H_show_no_comma H_show_no_space). Qed.
+
+  (* header_only = True on the written file: same header fields, names and counts, num_edges as printed in the
+     header, num_voters = num_alternatives, empty graph (used by C10) *)
+  Theorem C09_header_only : forall i : winst W, wf_wmd W i ->
+    wmd_parse W read_w false true (meta0 (lit "wmd")) (readlines (wmd_write W show_w i)) =
+    Ok (mkW (reparsed_meta (w_meta i)) (w_num_edges i) [] []).
+  Proof. exact (header_only_readlines W show_w read_w H_read_show H_show_nonempty H_show_no_comma H_show_no_space). Qed.
 End C09.
 
 Theorem C09_reparsed_same_content : forall W (i : winst W), wf_wmd W i -> same_content W i (reparsed W i).
@@ -91,6 +98,7 @@ Print Assumptions C09_roundtrip.
 Print Assumptions C09_idempotent.
 Print Assumptions C09_roundtrip_file.
 Print Assumptions C09_roundtrip_str.
+Print Assumptions C09_header_only.
 Print Assumptions C09_reparsed_same_content.
 Print Assumptions C09_sort_sorts.
 Print Assumptions C09_type_gate.
